@@ -541,6 +541,19 @@ ABORT_CODES = [0, 200, 204, 304, 400, 401, 403, 404, 405, 416, 418, 500, 501,
                420, 599]
 
 
+def _state_codes():
+    """every HTTP_* constant of poorwsgi.state (registered or not): an abort
+    may carry any of them"""
+    from poorwsgi import state
+    return sorted({v for k, v in vars(state).items()
+                   if k.startswith("HTTP_") and type(v) is int} -
+                  set(ABORT_CODES))
+
+
+# the special codes keep their weight
+ABORT_CODES = ABORT_CODES + ABORT_CODES[:8] + _state_codes()
+
+
 def rand_beh(rng, hook=None):
     """hook: None endpoint/handler, 'before', 'after'"""
     roll = rng.random()
